@@ -117,11 +117,12 @@ theorem udp_every_datagram_validated (dnsPort : Nat) (ki : UDP.KeyInfo) (validat
 
 /-- **wiring**: the source has the shapes these theorems are about (regenerated facts): the default
     TCP dialer validates every dialled IP with RequirePublicIP in its Control hook; the packet
-    handler installs RequirePublicIP, validates on both branches, unconditionally, and writes to the
-    validated address. -/
+    handler installs RequirePublicIP, validates on both branches, and writes to the validated address (that
+    `validatePacket` consults the validator unconditionally is proved about the translated function: C04
+    `code_association_only_for_allowed_destination`). -/
 theorem wiring : Gen.Wiring.tcpDefaultDialerRequiresPublicIP = true ∧ Gen.Wiring.tcpControlValidatesEveryDialledIP = true ∧
     Gen.Wiring.udpDefaultValidatorRequiresPublicIP = true ∧ Gen.Wiring.udpValidatesBothBranches = true ∧
-    Gen.Wiring.udpValidatorUnconditional = true ∧ Gen.Wiring.udpWritesToValidatedAddress = true := by decide
+    Gen.Wiring.udpWritesToValidatedAddress = true := by decide
 
 /- non-vacuity: concrete addresses on both sides of several block boundaries -/
 example : requirePublicIP Gen.privateNets [100, 64, 0, 1] = .priv := by decide
